@@ -30,6 +30,7 @@ Spec == Init /\ [][Next]_in
 Emit == in.ms # <<>> => PrintT(<<"CASE", ToJson(in)>>)
 \* design-level: removing the last member instruction of a faulty input never adds a fault of another member / the type
 Monotone == TRUE
+NoTraits == <<>>
 \* C06: ProjectTo -- every instruction that concerns another counterpart removed
 ProjectTo(i, cp) == [i EXCEPT !.traits = SelectSeq(@, LAMBDA t : t.cp = cp),
                               !.tattrs = SelectSeq(@, LAMBDA x : x.cp \in {"-", cp}),
